@@ -98,8 +98,8 @@ func discover(hdir string) ([]harnessDecl, error) {
 		for _, d := range f.Decls {
 			fd, ok := d.(*ast.FuncDecl)
 			if ok && fd.Recv == nil && fd.Doc != nil {
-				for _, line := range strings.Split(fd.Doc.Text(), "\n") {
-					line = strings.TrimSpace(line)
+				for _, cm := range fd.Doc.List {
+					line := strings.TrimSpace(strings.TrimPrefix(cm.Text, "//"))
 					if strings.HasPrefix(line, "zz:replace ") {
 						fs := strings.Fields(line[len("zz:replace "):])
 						sd := stubDecl{Target: fs[0], Func: fd.Name.Name, RelDir: rel, Set: "default"}
@@ -117,7 +117,11 @@ func discover(hdir string) ([]harnessDecl, error) {
 			}
 			o := HarnessOpts{Tier: "quick", Backend: "bv"}
 			if fd.Doc != nil {
-				parseDirective(fd.Doc.Text(), &o)
+				var raw []string
+				for _, cm := range fd.Doc.List {
+					raw = append(raw, strings.TrimSpace(strings.TrimPrefix(cm.Text, "//")))
+				}
+				parseDirective(strings.Join(raw, "\n"), &o)
 			}
 			if o.Prop == "" {
 				parts := strings.Split(fd.Name.Name, "_")
@@ -418,8 +422,25 @@ func cmdCheck() int {
 				f.Status = "abstract-level counterexample over free partial products (not natively replayable)"
 			} else if !*flagNoRep {
 				st := nativeReplay(file, h, f, ovDecls)
-				f.Status = st
 				nReplayed++
+				// try alternative models of the same failure (other paths), input-only ones first
+				sort.SliceStable(f.Alts, func(i, j int) bool { return !f.Alts[i].UFDep && f.Alts[j].UFDep })
+				for _, a := range f.Alts {
+					if st == "confirmed" {
+						break
+					}
+					writeReplayFile(file, h, a)
+					st2 := nativeReplay(file, h, a, ovDecls)
+					nReplayed++
+					if st2 == "confirmed" {
+						st = st2
+						f.Model, f.Lens, f.Path = a.Model, a.Lens, a.Path
+					}
+				}
+				if st != "confirmed" {
+					writeReplayFile(file, h, f)
+				}
+				f.Status = st
 			}
 			if f.Status == "not-reproduced" {
 				// the model does not fail natively: the encoding or a stub is wrong (tooling error, not a violation)
